@@ -1099,6 +1099,32 @@ func (m *Machine) enterLoopHeader(st *State, fr *Frame, from, header *ssa.BasicB
 			}
 			st.evBase = savedBase
 		}
+		if cut := fr.cuts[header.Index]; cut != nil && cut.locks != nil && !st.pure {
+			// lock balance per iteration: the next iteration starts with the same mutexes held
+			var diff []string
+			for k, v := range st.locks {
+				if v != cut.locks[k] && (v > 0 || cut.locks[k] > 0) {
+					diff = append(diff, k)
+				}
+			}
+			for k, v := range cut.locks {
+				if v > 0 && st.locks[k] != v {
+					found := false
+					for _, d := range diff {
+						if d == k {
+							found = true
+						}
+					}
+					if !found {
+						diff = append(diff, k)
+					}
+				}
+			}
+			sort.Strings(diff)
+			okk := len(diff) == 0
+			m.recordObl(st, fr, "guard", fmt.Sprintf("lockbalance.loop%d", ord), m.ctx.Bool(okk), append([]string{"C10", "C11"}, m.safeTagsFor(fr.fn)...),
+				fmt.Sprintf("a loop iteration ends with the mutexes it started with (differs for: %v)", diff), okk)
+		}
 		evalInv("inv.preserve")
 		// check that the havoc set covered everything the body wrote
 		cut := fr.cuts[header.Index]
@@ -1150,6 +1176,10 @@ func (m *Machine) enterLoopHeader(st *State, fr *Frame, from, header *ssa.BasicB
 	m.timePasses(st)
 	cut.heapAt = cloneHeap(st.heap)
 	cut.freshAt = len(st.fresh)
+	cut.locks = map[string]int{}
+	for k, v := range st.locks {
+		cut.locks[k] = v
+	}
 	cut.evBase = len(st.events)
 	fr.cuts[header.Index] = cut
 	// assume the invariants
